@@ -277,6 +277,11 @@ impl<'a> StatementEvaluator<'a> {
         let Some(Token::NumericLiteral(line_number)) = self.program().next_token() else {
             return Err(InterpreterError::UndefinedStatement.into());
         };
+        if self.program().peek_next_token() == Some(Token::Else) {
+            // We're the "then" clause of an IF: when the subroutine returns, the
+            // else clause (and anything else on this line) must be skipped.
+            self.program().discard_remaining_tokens();
+        }
         self.program().gosub_line_number(line_number as u64)?;
         Ok(())
     }
